@@ -623,6 +623,13 @@ func BuildPool(e *Eco, r *RNG, n int, extra []string) (*Pool, []string) {
 			src := s
 			switch nFam % 8 {
 			case 4:
+				// the candidate (of a few) with the most joiners: identifier lists live there
+				for k := 0; k < 8; k++ {
+					c := all[r.Intn(len(all))]
+					if len(c) < 60 && strings.Count(c, ".")+strings.Count(c, "-")+strings.Count(c, "_") > strings.Count(src, ".")+strings.Count(src, "-")+strings.Count(src, "_") {
+						src = c
+					}
+				}
 				fam := joinerSwaps(r, src, all)
 				for _, k := range r.Perm(len(fam)) {
 					if k < 8 {
